@@ -43,6 +43,21 @@ CHECKS = {
         TRUSTED + "; uid<->(position, orientation) encoding of harness/tables.py; exception types are not compared",
         "DESIGN.md 4/C12",
     ),
+    "C03": (
+        "model_checking",
+        "spec/Loader.tla + LdrOps.tla model loaders as bookkeeping objects (rows with uid and image id, image "
+        "registry, binning) and every public operation as a relation; LdrMachine.tla is the session machine whose "
+        "invariants RowAligned, ImagesConsistent, GroupsPartition (and the exact characterisation of the historical "
+        "task-order defect) TLC checks on every reachable state for all initial loaders and operation sequences up to "
+        "the bound. Conformance: every (loader state, operation) pair TLC explores at depth 1, all depth-2 pairs whose "
+        "state has interleaved image ids, and several hundred TLC-simulated 6-step behaviours are executed on real "
+        "SubtomogramLoader/BatchLoader/LoaderGroup objects over identity-encoding tomograms; each call (registration, "
+        "derivation, grouping iterated twice, observation through asnumpy/load/load_iter/dask/align/score/apply/"
+        "landscape with a probe model) is recorded and judged by TLC against LdrOps!Accepts (Trace_Ldr.tla).",
+        "TLA+ spec (Loader/LdrOps/LdrMachine) model-checked by TLC; TLC-generated programs run on real loaders; recorded traces validated by TLC (Trace_Ldr.tla)",
+        TRUSTED + "; identity-encoding tomograms and the probe alignment model of harness/loaders.py",
+        "DESIGN.md 4/C03",
+    ),
 }
 
 REASON_TODO = "check not built yet in this round (planned: see DESIGN.md section 4)"
